@@ -169,6 +169,52 @@ def impl_handler(c):
     return ('ok', R.results)
 
 
+def impl_swapper(c):
+    """LayoutSwapper (fullSimulation's grouping): the advertised bufferSize must be large enough for every layout's block and
+    arrays of exactly that size must suffice for every transpose (gather, scatter, handler-internal), with and without a buffer"""
+    import numpy as np
+    import warnings
+    from mpi4py import MPI
+    from pygyro.model.layout import LayoutSwapper
+    N, nprocs, seed = c
+    eta = [np.arange(n, dtype=float) for n in N]
+    names = ['v_parallel_2d', 'mode_solve', 'v_parallel_1d', 'poloidal']
+
+    def gfield(l):
+        idx = np.indices(l.shape)
+        gl = [None] * 3
+        for a in range(3):
+            gl[l.dims_order[a]] = idx[a] + l.starts[a]
+        v = np.zeros(l.shape, dtype=float)
+        for e in range(3):
+            v = v * N[e] + gl[e]
+        return v
+
+    def work(comm):
+        with warnings.catch_warnings():
+            warnings.simplefilter('ignore')
+            sw = LayoutSwapper(comm, [{'v_parallel_2d': [0, 2, 1], 'mode_solve': [1, 2, 0]}, {'v_parallel_1d': [0, 2, 1]},
+                                      {'poloidal': [2, 1, 0]}], [list(nprocs), nprocs[0], nprocs[1]], eta, 'mode_solve')
+            bs = int(sw.bufferSize)
+            out = {'bufsize': bs, 'sizes': {n: int(sw.getLayout(n).size) for n in names}, 'tr': []}
+            for a in names:
+                for b in names:
+                    if a == b:
+                        continue
+                    for use_buf in (False, True):
+                        la, lb = sw.getLayout(a), sw.getLayout(b)
+                        src = np.full(bs, -1.0)
+                        dst = np.full(bs, -2.0)
+                        src[:la.size] = gfield(la).reshape(-1)
+                        sw.transpose(src, dst, a, b, np.full(bs, -3.0) if use_buf else None)
+                        out['tr'].append((a, b, use_buf, bool((dst[:lb.size].reshape(lb.shape) == gfield(lb)).all())))
+        return out
+    R = MPI.run(nprocs[0] * nprocs[1], work, seed=seed, timeout=120)
+    if R.outcome != 'ok':
+        return ('fail', R.outcome, R.detail[:300])
+    return ('ok', R.results)
+
+
 # ----------------------------------------------------------------------------- check
 def run():
     chk = core.Check('C02', 'proof')
@@ -350,6 +396,32 @@ def run():
                     found_input = True
                     chk.violation('grid.Grid:accessor', 'config %r rank %d layout %s: %s disagrees with the partition' % (c, rk, dims, bad),
                                   {'kind': 'impl', 'case': list(c), 'rank': rk, 'layout': dims, 'accessor': bad})
+
+    # (d2) LayoutSwapper: exact-size buffers through gather / scatter / internal steps
+    scases = []
+    for nprocs in ([1, 2], [2, 1], [2, 2], [2, 3], [3, 2], [1, 3], [3, 1]) if quick else ([1, 2], [2, 1], [2, 2], [2, 3], [3, 2], [1, 3], [3, 1], [3, 3], [2, 4], [4, 2]):
+        for _ in range(2 if quick else 6):
+            N = [rng.randint(max(nprocs[0], 2), 8), rng.randint(max(nprocs[0], 2), 8), rng.randint(max(nprocs[1], 2), 8)]
+            scases.append((N, nprocs, rng.randrange(10 ** 6)))
+    simpl = implrun.run_cases('props.c02', 'impl_swapper', scases, tmo=200.0, chunk=1)
+    for c, r in zip(scases, simpl):
+        N, nprocs, seed = c
+        uneven = any(N[e] % p for e, p in ((0, nprocs[0]), (1, nprocs[0]), (2, nprocs[1])))
+        chk.count(('swapper', tuple(N), tuple(nprocs)), nontrivial=(nprocs[0] * nprocs[1] > 1), stratum='swapper:%s' % ('uneven' if uneven else 'even'),
+                  sample={'N': N, 'nprocs': nprocs, 'manager': 'LayoutSwapper (fullSimulation grouping)'})
+        if r[0] != 'ok':
+            found_input = True
+            chk.violation('layout.LayoutSwapper:exact-buffer-%s' % r[1], 'LayoutSwapper N=%r nprocs=%r: with arrays of exactly bufferSize the run ends in %s: %s'
+                          % (N, nprocs, r[1], r[2]), {'kind': 'impl', 'case': ['swapper', N, nprocs, seed], 'observed': list(r)})
+            continue
+        for rk, out in enumerate(r[1]):
+            small = [n for n, sz in out['sizes'].items() if sz > out['bufsize']]
+            wrong = [(a, b, ub) for a, b, ub, ok in out['tr'] if not ok]
+            if small or wrong:
+                found_input = True
+                chk.violation('layout.LayoutSwapper:bufferSize', 'LayoutSwapper N=%r nprocs=%r rank %d: bufferSize %d; layouts larger than it: %r; wrong transposes with exact-size arrays: %r'
+                              % (N, nprocs, rk, out['bufsize'], small, wrong[:4]), {'kind': 'impl', 'case': ['swapper', N, nprocs, seed], 'rank': rk})
+                break
 
     if not ok_t:
         chk.violation('layout.Layout:exprt', 'ExprT tie broken: %s' % info_t,
